@@ -51,6 +51,16 @@ static struct { void *p; int kind; } cells[8192];
 static int ncells = 0;
 
 static long base[7];
+static char *fn_names[6];		/* shared strings "cb", "cbs0".."cbs3", "act" of the uobj program */
+static long fn_base = 0;
+static long fn_refs (void)
+{
+  long n = 0;
+  for (int i = 0; i < 6; i++)
+    if (fn_names[i])
+      n += COUNTED_REF (fn_names[i]);
+  return n;
+}
 static program_t *uobj_prog = 0;	/* program of /c06/uobj: its ref is printed as p: */
 static object_t **anon = 0;		/* clones made by `clones n` */
 static int nanon = 0, capanon = 0;
@@ -195,14 +205,14 @@ static void print_state (const char *status)
   else
     snprintf (pf, sizeof pf, "%u", (unsigned) uobj_prog->ref);
   if (pf[0] == 'x')
-    vh_out ("%s st:%ld,%ld,%ld,%ld,-,-,%ld p:%s", buf, now[0] - base[0], now[1] - base[1], now[2] - base[2],
+    vh_out ("%s st:%ld,%ld,%ld,%ld,-,-,%ld p:%s f:-", buf, now[0] - base[0], now[1] - base[1], now[2] - base[2],
             now[3] - base[3], now[6] - base[6], pf);
   else if (lpc_mode || applied)
-    vh_out ("%s st:%ld,%ld,%ld,%ld,%ld,-,%ld p:%s", buf, now[0] - base[0], now[1] - base[1], now[2] - base[2],
-            now[3] - base[3], now[4] - base[4], now[6] - base[6], pf);
+    vh_out ("%s st:%ld,%ld,%ld,%ld,%ld,-,%ld p:%s f:%ld", buf, now[0] - base[0], now[1] - base[1], now[2] - base[2],
+            now[3] - base[3], now[4] - base[4], now[6] - base[6], pf, fn_refs () - fn_base);
   else
-    vh_out ("%s st:%ld,%ld,%ld,%ld,%ld,%ld,%ld p:%s", buf, now[0] - base[0], now[1] - base[1], now[2] - base[2],
-            now[3] - base[3], now[4] - base[4], now[5] - base[5], now[6] - base[6], pf);
+    vh_out ("%s st:%ld,%ld,%ld,%ld,%ld,%ld,%ld p:%s f:%ld", buf, now[0] - base[0], now[1] - base[1], now[2] - base[2],
+            now[3] - base[3], now[4] - base[4], now[5] - base[5], now[6] - base[6], pf, fn_refs () - fn_base);
 }
 
 /* value of a slot points to freed memory? (the model's explicit use-after-free outcome) */
@@ -639,6 +649,12 @@ static int c06_cmd (char *line)
           }
       }
       snapshot (base);
+      {
+        static const char *nm[6] = { "cb", "cbs0", "cbs1", "cbs2", "cbs3", "act" };
+        for (int i = 0; i < 6; i++)
+          fn_names[i] = findstring (nm[i]);
+        fn_base = fn_refs ();
+      }
       return 1;
     }
   if (!started)
